@@ -4,6 +4,7 @@ import (
 	"fmt"
 	"sync"
 	"sync/atomic"
+	"time"
 
 	"github.com/nspcc-dev/neo-go/pkg/core/mempool"
 	"github.com/nspcc-dev/neo-go/pkg/core/transaction"
@@ -43,7 +44,7 @@ func share(tx *transaction.Transaction) {
 
 func concurrentRun(run *ev.Run, idx int) (*violation, *seqState, int) {
 	r := rng.New(uint64(idx) + 77000)
-	s := &seqState{r: r, f: &feer{bal: map[util.Uint160]int64{}, dep: map[util.Uint160]int64{}, h: 1}}
+	s := &seqState{r: r, f: &feer{bal: map[util.Uint160]int64{}, dep: map[util.Uint160]int64{}, h: 1, yield: true}}
 	s.accs = []util.Uint160{{1}, {2}, {3}, {4}}
 	s.deps = []util.Uint160{{0xA}, {0xB}, {0xC}}
 	for _, a := range s.accs {
@@ -72,6 +73,15 @@ func concurrentRun(run *ev.Run, idx int) (*violation, *seqState, int) {
 				adds[w] = append(adds[w], tx)
 			}
 		}
+		// the same transactions offered by every worker at once (a transaction
+		// reaches a node from several peers and RPC clients simultaneously)
+		var dups []*transaction.Transaction
+		for k := 0; k < 2+r.Intn(3); k++ {
+			tx := s.mk()
+			share(tx)
+			s.known = append(s.known, tx)
+			dups = append(dups, tx)
+		}
 		removes := make([][]util.Uint256, workers)
 		for w := range removes {
 			for k := 0; k < r.Intn(5); k++ {
@@ -80,6 +90,7 @@ func concurrentRun(run *ev.Run, idx int) (*violation, *seqState, int) {
 		}
 		known := append([]*transaction.Transaction{}, s.known...)
 		var firstBad atomic.Pointer[violation]
+		var dupOK atomic.Int64 // successful additions of the shared transactions
 		var wg sync.WaitGroup
 		var stop atomic.Bool
 		for w := 0; w < workers; w++ {
@@ -92,6 +103,12 @@ func concurrentRun(run *ev.Run, idx int) (*violation, *seqState, int) {
 					}
 				}()
 				ri := 0
+				for _, tx := range dups {
+					if s.mp.Add(tx, s.f, int(tx.Nonce)) == nil {
+						dupOK.Add(1)
+					}
+					run.Obs("concurrent_duplicate_adds", 1)
+				}
 				for i, tx := range adds[w] {
 					_ = s.mp.Add(tx, s.f, int(tx.Nonce))
 					run.Obs("concurrent_adds", 1)
@@ -133,7 +150,30 @@ func concurrentRun(run *ev.Run, idx int) (*violation, *seqState, int) {
 		done := make(chan struct{})
 		go func() { wg.Wait(); close(done) }()
 		// wait for adders by polling a counter is not needed: readers are bounded
-		<-done
+		// A listing that breaks a clause is a verdict at once, whatever the other
+		// goroutines do afterwards (a corrupted pool may never let them finish).
+		tick := time.NewTicker(5 * time.Millisecond)
+		waited := 0
+	wait:
+		for {
+			select {
+			case <-done:
+				break wait
+			case <-tick.C:
+				if v := firstBad.Load(); v != nil {
+					tick.Stop()
+					stop.Store(true)
+					return v, s, ph + 1
+				}
+				if waited++; waited > 24000 { // 2 minutes: not a verdict
+					tick.Stop()
+					stop.Store(true)
+					run.Inconclusive("conc%d: phase %d did not finish in 2 minutes", idx, ph)
+					return nil, s, ph + 1
+				}
+			}
+		}
+		tick.Stop()
 		stop.Store(true)
 		if v := firstBad.Load(); v != nil {
 			return v, s, ph + 1
@@ -141,6 +181,9 @@ func concurrentRun(run *ev.Run, idx int) (*violation, *seqState, int) {
 		if v := s.invariants("concurrent-phase"); v != nil {
 			return v, s, ph + 1
 		}
+		// (more successful additions than shared transactions are legitimate: an
+		// entry removed or evicted meanwhile can be added again)
+		run.Obs("concurrent_duplicate_adds_succeeded", dupOK.Load())
 		// block arrives: balances change, stale entries are dropped; half of the
 		// time other goroutines keep adding while the refresh runs
 		s.f.h++
@@ -156,7 +199,7 @@ func concurrentRun(run *ev.Run, idx int) (*violation, *seqState, int) {
 		}
 		// balances for the refresh: a separate feer so that concurrent adders
 		// (which verify against the old one) never see a map being written
-		nf := &feer{bal: map[util.Uint160]int64{}, dep: map[util.Uint160]int64{}, h: s.f.h, fpb: s.f.fpb}
+		nf := &feer{bal: map[util.Uint160]int64{}, dep: map[util.Uint160]int64{}, h: s.f.h, fpb: s.f.fpb, yield: true}
 		for k, v := range s.f.bal {
 			nf.bal[k] = v
 		}
